@@ -109,6 +109,13 @@ claim("C10",
       "sums in dependency order. Merge-order independence of values is not decided.",
       COMMON_NOTE, "effect ordering + purity + role typing (abstract interpretation) + table agreement", "DESIGN.md section 3 C10")
 
+claim("C11",
+      "Static analysis (partial, exact): the overlap-mapping functions typed with role generators for overlap/destination/source heights (densities x overlap/destination; "
+      "volume-integrated parameters x overlap/source; others x overlap/destination; peaks max; only None skipped); height-change density ratios; classification from parameter "
+      "definitions; getBlocksBetweenElevations' overlap formula and loud sum check; contiguous one-block-per-cell construction of the new mesh; the mesh filter's complete-scan / "
+      "return-only-when-clean shape and anchor handling; exact rational forms of resampleStepwise's partial-bin fractions. Numerical conservation is not decided.",
+      COMMON_NOTE, "role typing (abstract interpretation) + path conditions + loop-shape rules + exact rational normal forms", "DESIGN.md section 3 C11")
+
 NA_REASON = {}
 
 
